@@ -1819,8 +1819,10 @@ def _lincomb_impl(a, x1, b, x2, out):
                     x2 *= a
                 else:
                     # In-place true division is not possible for, e.g.,
-                    # integer arrays
-                    x2 += a * x1
+                    # integer arrays. Cast like the assignment in the
+                    # small-size branch (`a * x1` may have a wider dtype,
+                    # e.g. for unsigned integers and negative `a`).
+                    np.add(x2, a * x1, out=x2, casting='unsafe')
             return x2
 
         def fallback_scal(a, x, n):
